@@ -559,7 +559,7 @@ func c09RaceMain(t *testing.T) {
 
 // c09StartRacePass builds the same test binary with -race (same overlay) and
 // runs the free-running pass in it; the returned function waits for the result.
-func c09StartRacePass(deadline time.Time) func() (summary string, races int, mismatch string, err error) {
+func c09StartRacePass(deadline time.Time) func() (summary string, races int, mismatch string, raw []byte, err error) {
 	type result struct {
 		out []byte
 		err error
@@ -583,7 +583,7 @@ func c09StartRacePass(deadline time.Time) func() (summary string, races int, mis
 		os.RemoveAll(filepath.Join(work, "tmp-race"))
 		ch <- result{out, err}
 	}()
-	return func() (string, int, string, error) {
+	return func() (string, int, string, []byte, error) {
 		r := <-ch
 		races := bytes.Count(r.out, []byte("WARNING: DATA RACE"))
 		var summary, mismatch string
@@ -614,9 +614,9 @@ func c09StartRacePass(deadline time.Time) func() (summary string, races int, mis
 			if len(tail) > 3000 {
 				tail = tail[len(tail)-3000:]
 			}
-			return summary, races, mismatch, fmt.Errorf("%v\n%s", r.err, tail)
+			return summary, races, mismatch, r.out, fmt.Errorf("%v\n%s", r.err, tail)
 		}
-		return summary, races, mismatch, nil
+		return summary, races, mismatch, r.out, nil
 	}
 }
 
@@ -683,7 +683,7 @@ func TestVerifC09(t *testing.T) {
 	}
 
 	racePassDeadline := started.Add(budget * 6 / 10)
-	waitRace := func() (string, int, string, error) { return "RACE-PASS disabled", 0, "", nil }
+	waitRace := func() (string, int, string, []byte, error) { return "RACE-PASS disabled", 0, "", nil, nil }
 	if os.Getenv("VERIF_C09_NORACE") == "" {
 		waitRace = c09StartRacePass(racePassDeadline)
 	}
@@ -791,13 +791,16 @@ func TestVerifC09(t *testing.T) {
 		}
 	}
 
-	summary, races, mismatch, err := waitRace()
+	summary, races, mismatch, raceOut, err := waitRace()
 	if err != nil {
 		harness = append(harness, "race pass: "+err.Error())
 	}
 	if races > 0 {
-		r.Violation("race-pass:data-race", "the Go race detector reported a data race in the free-running pass of the same bodies:\n"+mismatch, nil)
-	} else if mismatch != "" {
+		for sig, rep := range c09RaceSignatures(raceOut) {
+			r.Violation(sig, "the Go race detector reported a data race in the free-running pass of the same bodies (native goroutines, -race build):\n"+rep, nil)
+		}
+	}
+	if mismatch != "" && !strings.HasPrefix(mismatch, "DATA RACE") {
 		for _, m := range strings.Split(mismatch, "\x00") {
 			if !strings.HasPrefix(m, "RACE-PASS-MISMATCH sig=") {
 				continue
@@ -865,6 +868,48 @@ func TestVerifC09(t *testing.T) {
 		r.Sample(map[string]interface{}{"note": "no conflicting item was sampled", "executions": total.Executions})
 	}
 	r.Finish(exhaustive && len(harness) == 0)
+}
+
+// c09RaceSignatures turns the race detector's reports into one narrow
+// signature per unordered pair of racing functions ("data-race:<f>|<g>") and
+// keeps the first report of each.
+func c09RaceSignatures(out []byte) map[string]string {
+	res := map[string]string{}
+	for _, rep := range strings.Split(string(out), "WARNING: DATA RACE")[1:] {
+		if i := strings.Index(rep, "=================="); i > 0 {
+			rep = rep[:i]
+		}
+		lines := strings.Split(rep, "\n")
+		var fns []string
+		for i, l := range lines {
+			l = strings.TrimSpace(l)
+			if (strings.HasPrefix(l, "Write at") || strings.HasPrefix(l, "Read at") || strings.HasPrefix(l, "Previous write at") || strings.HasPrefix(l, "Previous read at") ||
+				strings.HasPrefix(l, "Atomic") || strings.HasPrefix(l, "Previous atomic")) && i+1 < len(lines) {
+				fn := strings.TrimSpace(lines[i+1])
+				fn = strings.TrimSuffix(fn, "()")
+				if j := strings.LastIndex(fn, "/"); j >= 0 {
+					fn = fn[j+1:]
+				}
+				fns = append(fns, fn)
+			}
+		}
+		sort.Strings(fns)
+		sig := "race-pass:data-race:" + strings.Join(fns, "|")
+		if _, ok := res[sig]; !ok {
+			var keep []string
+			for _, l := range lines {
+				if len(l) > 2 && l[1] == '|' { // log line of the node
+					continue
+				}
+				keep = append(keep, l)
+				if len(keep) > 60 {
+					break
+				}
+			}
+			res[sig] = strings.Join(keep, "\n")
+		}
+	}
+	return res
 }
 
 func c09Procs() int {
